@@ -3,5 +3,652 @@ From GS Require Import Base.Bytes Base.LTS Model.InstanceCache.
 From stdpp Require Import gmap.
 Local Open Scope Z_scope.
 
+Global Arguments handle_info : simpl never.
+Global Arguments do_refresh : simpl never.
+Global Arguments touch : simpl never.
+Global Arguments answers : simpl never.
+
+(* ---- doLookup ---------------------------------------------------------------------------------- *)
+
 Lemma answers_length ips res : length (answers ips res) = length ips.
 Proof. unfold answers; apply map_length. Qed.
+
+Lemma answers_lookup ips res (n : nat) ip :
+  ips !! n = Some ip -> answers ips res !! n = Some (ip, res_get res ip).
+Proof. intros H; unfold answers; rewrite list_lookup_fmap, H; reflexivity. Qed.
+
+Lemma answers_positions ips res :
+  length (answers ips res) = length ips /\
+  (forall (n : nat) ip, ips !! n = Some ip -> answers ips res !! n = Some (ip, res_get res ip)) /\
+  (answers ips res).*1 = ips.
+Proof.
+  split; [apply answers_length|]; split; [intros; by apply answers_lookup|].
+  unfold answers; induction ips as [|x r IH]; cbn; [done|by rewrite IH].
+Qed.
+
+(* ---- uint64 counters ---------------------------------------------------------------------------- *)
+
+Lemma inc64_u64 x : inc64 (u64 x) = u64 (x + 1).
+Proof. unfold inc64, u64; apply Z.add_mod_idemp_l; by vm_compute. Qed.
+Lemma dec64_u64 x : dec64 (u64 x) = u64 (x - 1).
+Proof. unfold dec64, u64; apply Zminus_mod_idemp_l. Qed.
+Lemma iter_dec64_u64 (n : nat) x : Nat.iter n dec64 (u64 x) = u64 (x - Z.of_nat n).
+Proof.
+  induction n as [|n IH]; [apply (f_equal u64); lia|].
+  change (Nat.iter (S n) dec64 (u64 x)) with (dec64 (Nat.iter n dec64 (u64 x))).
+  rewrite IH, dec64_u64; apply (f_equal u64); lia.
+Qed.
+Lemma u64_small x : 0 <= x < 2 ^ 64 -> u64 x = x.
+Proof. intros; unfold u64; by apply Z.mod_small. Qed.
+
+(* ---- counting entries --------------------------------------------------------------------------- *)
+
+Section cnt.
+  Context (P : source * holder -> Prop) `{!forall x, Decision (P x)}.
+  Definition cnt (m : gmap source holder) : nat := size (filter P m).
+  Definition ind (x : source * holder) : nat := if decide (P x) then 1%nat else 0%nat.
+
+  Lemma cnt_empty : cnt ∅ = 0%nat.
+  Proof. unfold cnt; by rewrite map_filter_empty, map_size_empty. Qed.
+
+  Lemma cnt_insert m k v : cnt (<[k:=v]> m) = (cnt (delete k m) + ind (k, v))%nat.
+  Proof.
+    unfold cnt, ind. rewrite <- insert_delete_insert, map_filter_insert.
+    destruct (decide (P (k, v))).
+    - rewrite map_size_insert_None; [lia|].
+      apply map_filter_lookup_None; left; apply lookup_delete.
+    - rewrite delete_idemp; lia.
+  Qed.
+
+  Lemma cnt_lookup m k :
+    cnt m = (cnt (delete k m) + match m !! k with Some v => ind (k, v) | None => 0 end)%nat.
+  Proof.
+    destruct (m !! k) as [v|] eqn:E.
+    - rewrite <- (insert_id m k v E) at 1. apply cnt_insert.
+    - rewrite delete_notin by done; lia.
+  Qed.
+
+  Lemma cnt_split (Q : source * holder -> Prop) `{!forall x, Decision (Q x)} m :
+    cnt m = (cnt (filter Q m) + cnt (filter (λ x, ¬ Q x) m))%nat.
+  Proof.
+    unfold cnt. rewrite <- (map_filter_union_complement Q m) at 1.
+    rewrite map_filter_union by apply map_disjoint_filter_complement.
+    apply map_size_disj_union, map_disjoint_filter, map_disjoint_filter_complement.
+  Qed.
+
+  Lemma cnt_le_size m : (cnt m <= size m)%nat.
+  Proof.
+    unfold cnt. rewrite <- (map_filter_union_complement P m) at 2.
+    rewrite map_size_disj_union by apply map_disjoint_filter_complement. lia.
+  Qed.
+End cnt.
+Global Arguments cnt : simpl never.
+Global Arguments ind : simpl never.
+Global Arguments u64 : simpl never.
+Global Arguments inc64 : simpl never.
+Global Arguments dec64 : simpl never.
+
+Ltac ind_tac E :=
+  unfold ind; repeat case_decide; try reflexivity; exfalso;
+  unfold positive_entry, negative_entry in *; cbn [snd] in *; rewrite ?E in *;
+  repeat match goal with H : is_Some None |- _ => by destruct H | H : ¬ is_Some (Some _) |- _ => by apply H end;
+  try congruence; try tauto.
+Lemma ind_pos_inst k h k' h' :
+  h_inst h = h_inst h' -> ind positive_entry (k, h) = ind positive_entry (k', h').
+Proof. intros E; ind_tac E. Qed.
+Lemma ind_neg_inst k h k' h' :
+  h_inst h = h_inst h' -> ind negative_entry (k, h) = ind negative_entry (k', h').
+Proof. intros E; ind_tac E. Qed.
+Lemma ind_pos_Some k h i : h_inst h = Some i -> ind positive_entry (k, h) = 1%nat.
+Proof. intros E; ind_tac E. Qed.
+Lemma ind_pos_None k h : h_inst h = None -> ind positive_entry (k, h) = 0%nat.
+Proof. intros E; ind_tac E. Qed.
+Lemma ind_neg_Some k h i : h_inst h = Some i -> ind negative_entry (k, h) = 0%nat.
+Proof. intros E; ind_tac E. Qed.
+Lemma ind_neg_None k h : h_inst h = None -> ind negative_entry (k, h) = 1%nat.
+Proof. intros E; ind_tac E. Qed.
+
+Lemma elem_of_keys {V} (m : gmap source V) s : s ∈ keys m <-> is_Some (m !! s).
+Proof.
+  unfold keys. rewrite elem_of_list_fmap. split.
+  - intros [[k v] [-> H]]. apply elem_of_map_to_list in H. eauto.
+  - intros [v H]. exists (s, v). split; [done|]. by apply elem_of_map_to_list.
+Qed.
+Lemma NoDup_keys {V} (m : gmap source V) : NoDup (keys m).
+Proof. apply NoDup_fst_map_to_list. Qed.
+
+(* ---- handleInstanceInfo -------------------------------------------------------------------------- *)
+
+(* the holder handleInstanceInfo stores *)
+Definition new_holder (c : config) (now : Z) (io : option instance) (cur : option holder) : holder :=
+  Holder (match io with Some _ => io | None => cur ≫= h_inst end)
+         (now + match io with None => c_negttl c | Some _ => c_ttl c end)
+         (match cur with Some h => h_access h | None => now end).
+
+Lemma handle_info_cache c now ip io k :
+  k_cache (handle_info c now (ip, io) k) = <[ip := new_holder c now io (k_cache k !! ip)]> (k_cache k).
+Proof.
+  unfold handle_info, new_holder.
+  destruct (k_cache k !! ip) as [cur|]; destruct io as [i|]; cbn; try reflexivity.
+  destruct (h_inst cur); reflexivity.
+Qed.
+
+Lemma handle_info_gauges c now i k :
+  k_pos k = u64 (Z.of_nat (cnt positive_entry (k_cache k))) ->
+  k_neg k = u64 (Z.of_nat (cnt negative_entry (k_cache k))) ->
+  k_pos (handle_info c now i k) = u64 (Z.of_nat (cnt positive_entry (k_cache (handle_info c now i k)))) /\
+  k_neg (handle_info c now i k) = u64 (Z.of_nat (cnt negative_entry (k_cache (handle_info c now i k)))).
+Proof.
+  destruct i as [ip io]. intros Hp Hn. rewrite handle_info_cache, !cnt_insert.
+  rewrite (cnt_lookup positive_entry (k_cache k) ip) in Hp.
+  rewrite (cnt_lookup negative_entry (k_cache k) ip) in Hn.
+  unfold handle_info, new_holder.
+  destruct (k_cache k !! ip) as [cur|] eqn:E; destruct io as [i|]; cbn [mbind option_bind].
+  - destruct (h_inst cur) as [i0|] eqn:Ec; cbn [k_pos k_neg].
+    + rewrite (ind_pos_Some ip cur i0 Ec) in Hp. rewrite (ind_neg_Some ip cur i0 Ec) in Hn.
+      rewrite (ind_pos_Some _ _ i), (ind_neg_Some _ _ i) by reflexivity. auto.
+    + rewrite (ind_pos_None ip cur Ec) in Hp. rewrite (ind_neg_None ip cur Ec) in Hn.
+      rewrite (ind_pos_Some _ _ i), (ind_neg_Some _ _ i) by reflexivity.
+      rewrite Hp, Hn, inc64_u64, dec64_u64. split; apply (f_equal u64); lia.
+  - cbn [k_pos k_neg].
+    rewrite (ind_pos_inst ip _ ip cur), (ind_neg_inst ip _ ip cur) by reflexivity. auto.
+  - cbn [k_pos k_neg]. rewrite (ind_pos_Some _ _ i), (ind_neg_Some _ _ i) by reflexivity.
+    rewrite Hp, Hn, inc64_u64. split; apply (f_equal u64); lia.
+  - cbn [k_pos k_neg]. rewrite ind_pos_None, ind_neg_None by reflexivity.
+    rewrite Hp, Hn, inc64_u64. split; apply (f_equal u64); lia.
+Qed.
+
+(* ---- doRefresh ----------------------------------------------------------------------------------- *)
+
+Lemma do_refresh_gauges c t k :
+  k_pos k = u64 (Z.of_nat (cnt positive_entry (k_cache k))) ->
+  k_neg k = u64 (Z.of_nat (cnt negative_entry (k_cache k))) ->
+  let k' := (do_refresh c t k).1.1 in
+  k_pos k' = u64 (Z.of_nat (cnt positive_entry (k_cache k'))) /\
+  k_neg k' = u64 (Z.of_nat (cnt negative_entry (k_cache k'))).
+Proof.
+  intros Hp Hn. unfold do_refresh; cbn [fst k_pos k_neg k_cache].
+  rewrite Hp, Hn, !iter_dec64_u64.
+  rewrite (cnt_split positive_entry (idle_entry c t) (k_cache k)).
+  rewrite (cnt_split negative_entry (idle_entry c t) (k_cache k)).
+  unfold cnt. split; apply (f_equal u64); lia.
+Qed.
+
+(* ---- Peek ---------------------------------------------------------------------------------------- *)
+
+Lemma touch_cnt now s m :
+  cnt positive_entry (touch now s m) = cnt positive_entry m /\
+  cnt negative_entry (touch now s m) = cnt negative_entry m.
+Proof.
+  unfold touch. destruct (m !! s) as [h|] eqn:E; [|done].
+  rewrite !cnt_insert, (cnt_lookup positive_entry m s), (cnt_lookup negative_entry m s), E.
+  rewrite (ind_pos_inst s _ s h), (ind_neg_inst s _ s h) by reflexivity. done.
+Qed.
+
+Lemma touch_peek now s m s' : peek_result (touch now s m) s' = peek_result m s'.
+Proof.
+  unfold touch, peek_result. destruct (m !! s) as [h|] eqn:E; [|done].
+  destruct (decide (s = s')) as [<-|Hne].
+  - by rewrite lookup_insert, E.
+  - by rewrite lookup_insert_ne.
+Qed.
+
+(* ---- the end of Run's loop body ------------------------------------------------------------------- *)
+
+Lemma refill_keeps {A} (stack : list A) reg :
+  opt_list (refill stack reg).2 ++ (refill stack reg).1 = opt_list reg ++ stack.
+Proof. destruct reg, stack; reflexivity. Qed.
+
+Lemma loop_tail_eq st :
+  loop_tail st =
+  State (st_core st) (refill (to_lookup st) (lookup_reg st)).1 (refill (to_lookup st) (lookup_reg st)).2
+        (refill (to_return st) (return_reg st)).1 (refill (to_return st) (return_reg st)).2
+        (pending st) (inflight st) (submitted st) (requeued st) (batches st) (handled st) (evicted st)
+        (delivered st) (peeked st).
+Proof.
+  destruct st as [k tl lr tr rr pe inf sub req bat han evi del pk]; unfold loop_tail; cbn.
+  destruct (refill tl lr), (refill tr rr); reflexivity.
+Qed.
+
+Global Arguments loop_tail : simpl never.
+
+Lemma loop_tail_waiting st : waiting (loop_tail st) = waiting st.
+Proof. rewrite loop_tail_eq; unfold waiting; cbn. by rewrite refill_keeps. Qed.
+
+Lemma loop_tail_returning st :
+  to_return (loop_tail st) ++ opt_list (return_reg (loop_tail st)) ≡ₚ to_return st ++ opt_list (return_reg st).
+Proof.
+  rewrite loop_tail_eq; cbn. rewrite Permutation_app_comm, refill_keeps. apply Permutation_app_comm.
+Qed.
+
+Lemma loop_tail_in_transit st : in_transit (loop_tail st) ≡ₚ in_transit st.
+Proof.
+  unfold in_transit. rewrite loop_tail_returning. by rewrite loop_tail_eq.
+Qed.
+
+(* ---- the inductive invariant ---------------------------------------------------------------------- *)
+
+Definition batch_bound (c : config) (n : nat) : Prop := (1 <= Z.of_nat n <= Z.max 1 (c_limit c)).
+
+Record Inv (c : config) (st : state) : Prop := {
+  (* every answer doLookup owes has been handled by the cache or is still in doLookup's hands *)
+  inv_answers : due_answers st ≡ₚ handled st ++ inflight st;
+  (* every handled answer has been delivered or sits in Run's return stack / register *)
+  inv_returns : handled st ≡ₚ delivered st ++ to_return st ++ opt_list (return_reg st);
+  (* every accepted source is waiting or has been a position of a provider call *)
+  inv_queries : submitted st ++ requeued st ≡ₚ waiting st ++ queried st;
+  inv_pos : gauge_pos st = u64 (Z.of_nat (cnt positive_entry (cache st)));
+  inv_neg : gauge_neg st = u64 (Z.of_nat (cnt negative_entry (cache st)));
+  inv_pending : Z.of_nat (length (pending st)) <= Z.max 1 (c_limit c);
+  inv_batches : Forall (λ b, batch_bound c (length b.1.1)) (batches st)
+}.
+
+Lemma inv_init c : Inv c init.
+Proof.
+  split; cbn; try done. lia.
+Qed.
+
+Lemma inv_loop_tail c st : Inv c st -> Inv c (loop_tail st).
+Proof.
+  intros [Ha Hr Hq Hp Hn Hpe Hb]. split.
+  - by rewrite loop_tail_eq.
+  - rewrite loop_tail_returning. by rewrite loop_tail_eq.
+  - rewrite loop_tail_waiting. by rewrite loop_tail_eq.
+  - by rewrite loop_tail_eq.
+  - by rewrite loop_tail_eq.
+  - by rewrite loop_tail_eq.
+  - by rewrite loop_tail_eq.
+Qed.
+
+Lemma can_receive_bound c pe inf (s : source) :
+  can_receive c pe inf = true -> Z.of_nat (length pe) <= Z.max 1 (c_limit c) ->
+  inf = [] /\ Z.of_nat (length (pe ++ [s])) <= Z.max 1 (c_limit c).
+Proof.
+  unfold can_receive. destruct inf; [|done]. destruct pe as [|p pe].
+  - intros _ _; split; [done|]. cbn; lia.
+  - intros H _. apply bool_decide_eq_true in H. split; [done|]. rewrite app_length; cbn [length] in *; lia.
+Qed.
+
+Section labels.
+  Context (c : config).
+  Implicit Types st : state.
+
+  Lemma inv_submit st s st' : Inv c st -> step c st (Submit s) = Some st' -> Inv c st'.
+  Proof.
+    destruct st as [k tl lr tr rr pe inf sub req bat han evi del pk]. intros [Ha Hr Hq Hp Hn Hpe Hb]; cbn in *.
+    destruct (can_receive c pe inf) eqn:E; [|done]. intros [= <-].
+    destruct (can_receive_bound c pe inf s E Hpe) as [-> Hpe'].
+    split; cbn; try done.
+    unfold waiting in *; cbn in *. rewrite Hq. solve_Permutation.
+  Qed.
+
+  Lemma inv_send st st' : Inv c st -> step c st SendLookup = Some st' -> Inv c st'.
+  Proof.
+    destruct st as [k tl lr tr rr pe inf sub req bat han evi del pk]. intros [Ha Hr Hq Hp Hn Hpe Hb]; cbn in *.
+    destruct lr as [s|]; [|done]. destruct (can_receive c pe inf) eqn:E; [|done]. intros [= <-].
+    destruct (can_receive_bound c pe inf s E Hpe) as [-> Hpe'].
+    apply inv_loop_tail. split; cbn; try done.
+    unfold waiting in *; cbn in *. rewrite Hq. solve_Permutation.
+  Qed.
+
+  Lemma inv_batch st res err st' : Inv c st -> step c st (Batch res err) = Some st' -> Inv c st'.
+  Proof.
+    destruct st as [k tl lr tr rr pe inf sub req bat han evi del pk]. intros [Ha Hr Hq Hp Hn Hpe Hb]; cbn in *.
+    destruct inf; [|done]. destruct pe as [|p pe]; [done|]. intros [= <-].
+    split; cbn -[answers]; try done.
+    - unfold due_answers in *; cbn -[answers] in *. rewrite Ha. solve_Permutation.
+    - unfold waiting, queried in *; cbn in *. rewrite Hq. solve_Permutation.
+    - lia.
+    - constructor; [|done]. unfold batch_bound; cbn [fst length] in *. lia.
+  Qed.
+
+  Lemma inv_handle st now st' : Inv c st -> step c st (HandleInfo now) = Some st' -> Inv c st'.
+  Proof.
+    destruct st as [k tl lr tr rr pe inf sub req bat han evi del pk]. intros [Ha Hr Hq Hp Hn Hpe Hb]; cbn in *.
+    destruct inf as [|i inf]; [done|]. intros [= <-].
+    apply inv_loop_tail.
+    destruct (handle_info_gauges c now i k Hp Hn) as [Hp' Hn'].
+    split; cbn; try done.
+    - rewrite Ha. solve_Permutation.
+    - rewrite Hr. solve_Permutation.
+  Qed.
+
+  Lemma inv_return st st' : Inv c st -> step c st Return = Some st' -> Inv c st'.
+  Proof.
+    destruct st as [k tl lr tr rr pe inf sub req bat han evi del pk]. intros [Ha Hr Hq Hp Hn Hpe Hb]; cbn in *.
+    destruct rr as [i|]; [|done]. intros [= <-].
+    apply inv_loop_tail. split; cbn; try done.
+    rewrite Hr. solve_Permutation.
+  Qed.
+
+  Lemma inv_refresh st t order st' : Inv c st -> step c st (Refresh t order) = Some st' -> Inv c st'.
+  Proof.
+    destruct st as [k tl lr tr rr pe inf sub req bat han evi del pk]. intros [Ha Hr Hq Hp Hn Hpe Hb].
+    cbn [step]. pose proof (do_refresh_gauges c t k Hp Hn) as Hg.
+    destruct (do_refresh c t k) as [[k' ev] rq]. cbn in Hg. destruct Hg as [Hp' Hn'].
+    case_decide as Ho; [|done]. intros [= <-].
+    apply inv_loop_tail. split; cbn in *; try done.
+    unfold waiting in *; cbn in *.
+    trans (rev order ++ sub ++ req); [solve_Permutation|]. rewrite Hq. solve_Permutation.
+  Qed.
+
+  Lemma inv_peek st s now st' : Inv c st -> step c st (Peek s now) = Some st' -> Inv c st'.
+  Proof.
+    destruct st as [k tl lr tr rr pe inf sub req bat han evi del pk]. intros [Ha Hr Hq Hp Hn Hpe Hb]; cbn in *.
+    intros [= <-]. destruct (touch_cnt now s (k_cache k)) as [E1 E2].
+    split; cbn; try done.
+    - unfold gauge_pos, cache in *; cbn in *. by rewrite E1.
+    - unfold gauge_neg, cache in *; cbn in *. by rewrite E2.
+  Qed.
+
+  Lemma inv_step st l st' : Inv c st -> step c st l = Some st' -> Inv c st'.
+  Proof.
+    intros HI Hs. destruct l.
+    - exact (inv_submit _ _ _ HI Hs).
+    - exact (inv_send _ _ HI Hs).
+    - exact (inv_batch _ _ _ _ HI Hs).
+    - exact (inv_handle _ _ _ HI Hs).
+    - exact (inv_return _ _ HI Hs).
+    - exact (inv_refresh _ _ _ _ HI Hs).
+    - exact (inv_peek _ _ _ _ HI Hs).
+  Qed.
+
+  Lemma inv_reachable ls st : run (step c) init ls = Some st -> Inv c st.
+  Proof. apply (invariant_run (step c) (Inv c) inv_step), inv_init. Qed.
+End labels.
+
+(* ---- C12_one_answer_per_query, C12_all_queried, C12_gauges ------------------------------------------ *)
+
+Lemma one_answer_per_query :
+  (forall ips res,
+     length (answers ips res) = length ips /\
+     forall (n : nat) ip, ips !! n = Some ip -> answers ips res !! n = Some (ip, res_get res ip)) /\
+  forall c ls st, run (step c) init ls = Some st ->
+    due_answers st ≡ₚ handled st ++ inflight st /\
+    due_answers st ≡ₚ delivered st ++ in_transit st /\
+    (in_transit st = [] -> delivered st ≡ₚ due_answers st).
+Proof.
+  split; [intros; split; [apply answers_length|by apply answers_lookup]|].
+  intros c ls st Hrun. destruct (inv_reachable c ls st Hrun) as [Ha Hr _ _ _ _ _].
+  assert (due_answers st ≡ₚ delivered st ++ in_transit st) as Hd.
+  { unfold in_transit. rewrite Ha, Hr. solve_Permutation. }
+  split; [done|]. split; [done|]. intros E. by rewrite Hd, E, app_nil_r.
+Qed.
+
+Lemma all_queried c ls st :
+  run (step c) init ls = Some st ->
+  submitted st ++ requeued st ≡ₚ waiting st ++ queried st /\
+  (waiting st = [] -> queried st ≡ₚ submitted st ++ requeued st) /\
+  (1 <= c_limit c -> Forall (λ b, 1 <= Z.of_nat (length b.1.1) <= c_limit c) (batches st)).
+Proof.
+  intros Hrun. destruct (inv_reachable c ls st Hrun) as [_ _ Hq _ _ _ Hb].
+  split; [done|]. split; [intros E; by rewrite Hq, E|].
+  intros Hl. eapply Forall_impl; [exact Hb|]. unfold batch_bound; cbn. intros; lia.
+Qed.
+
+Lemma gauges c ls st :
+  run (step c) init ls = Some st ->
+  gauge_pos st = Z.of_nat (size (filter positive_entry (cache st))) `mod` 2 ^ 64 /\
+  gauge_neg st = Z.of_nat (size (filter negative_entry (cache st))) `mod` 2 ^ 64 /\
+  (Z.of_nat (size (cache st)) < 2 ^ 64 ->
+   gauge_pos st = Z.of_nat (size (filter positive_entry (cache st))) /\
+   gauge_neg st = Z.of_nat (size (filter negative_entry (cache st)))).
+Proof.
+  intros Hrun. destruct (inv_reachable c ls st Hrun) as [_ _ _ Hp Hn _ _].
+  split; [exact Hp|]. split; [exact Hn|]. intros Hs.
+  pose proof (cnt_le_size positive_entry (cache st)). pose proof (cnt_le_size negative_entry (cache st)).
+  rewrite Hp, Hn. unfold cnt in *. split; apply u64_small; lia.
+Qed.
+
+(* ---- C12_keeps_good_data ------------------------------------------------------------------------ *)
+
+Lemma serves_iff st s i : serves st s i <-> exists h, cache st !! s = Some h /\ h_inst h = Some i.
+Proof.
+  unfold serves, peek_result. destruct (cache st !! s) as [h|]; cbn; split.
+  - intros [= E]. eauto.
+  - intros [h' [[= <-] E]]. by rewrite E.
+  - done.
+  - by intros [h' [? _]].
+Qed.
+
+Lemma serves_intro st s i h : k_cache (st_core st) !! s = Some h -> h_inst h = Some i -> serves st s i.
+Proof. intros; apply serves_iff; eauto. Qed.
+
+Lemma latest_positive_app s a b i : latest_positive s (a ++ b) i = latest_positive s a (latest_positive s b i).
+Proof.
+  induction a as [|[s' [i'|]] a IH]; cbn; [done| |done]. by case_decide.
+Qed.
+
+Lemma loop_tail_core st : st_core (loop_tail st) = st_core st.
+Proof. by rewrite loop_tail_eq. Qed.
+Lemma loop_tail_handled st : handled (loop_tail st) = handled st.
+Proof. by rewrite loop_tail_eq. Qed.
+Lemma loop_tail_evicted st : evicted (loop_tail st) = evicted st.
+Proof. by rewrite loop_tail_eq. Qed.
+Lemma loop_tail_serves st s i : serves (loop_tail st) s i <-> serves st s i.
+Proof. unfold serves, cache. by rewrite loop_tail_core. Qed.
+
+Definition history_grows (st st' : state) (ev : list source) (han : list info) : Prop :=
+  evicted st' = ev ++ evicted st /\ handled st' = han ++ handled st /\
+  forall s i, serves st s i -> s ∉ ev -> serves st' s (latest_positive s han i).
+
+Lemma history_grows_nil st st' :
+  evicted st' = evicted st -> handled st' = handled st -> (forall s i, serves st s i -> serves st' s i) ->
+  exists ev han, history_grows st st' ev han.
+Proof. intros He Hh Hs. exists [], []. repeat split; auto. Qed.
+
+Lemma keeps_step c st l st' :
+  step c st l = Some st' -> exists ev han, history_grows st st' ev han.
+Proof.
+  destruct st as [k tl lr tr rr pe inf sub req bat han evi del pk]. intros Hstep.
+  destruct l as [s0| |res err|now| |t order|s0 now]; cbn [step] in Hstep.
+  - destruct (can_receive c pe inf); [|done]. injection Hstep as <-. by apply history_grows_nil.
+  - destruct lr as [s1|]; [|done]. destruct (can_receive c pe inf); [|done]. injection Hstep as <-.
+    apply history_grows_nil; [by rewrite loop_tail_evicted|by rewrite loop_tail_handled|].
+    intros s i. by rewrite loop_tail_serves.
+  - destruct inf as [|i1 inf]; [|done]. destruct pe as [|p1 pe]; [done|]. injection Hstep as <-. by apply history_grows_nil.
+  - destruct inf as [|[ip io] inf]; [done|]. injection Hstep as <-.
+    exists [], [(ip, io)]. unfold history_grows. rewrite loop_tail_evicted, loop_tail_handled.
+    split; [done|]. split; [done|]. intros s i Hs _. rewrite loop_tail_serves.
+    apply serves_iff in Hs as [h [Hc Hi]]. unfold cache in Hc; cbn [st_core] in Hc.
+    destruct (decide (ip = s)) as [->|Hne].
+    + eapply serves_intro; cbn [st_core]; [rewrite handle_info_cache; apply lookup_insert|].
+      rewrite Hc. unfold new_holder; cbn.
+      destruct io as [i'|]; cbn; [by rewrite decide_True|done].
+    + eapply serves_intro; cbn [st_core]; [rewrite handle_info_cache, lookup_insert_ne by done; exact Hc|].
+      destruct io as [i'|]; cbn; [by rewrite decide_False|done].
+  - destruct rr as [i1|]; [|done]. injection Hstep as <-.
+    apply history_grows_nil; [by rewrite loop_tail_evicted|by rewrite loop_tail_handled|].
+    intros s i. by rewrite loop_tail_serves.
+  - unfold do_refresh in Hstep. case_decide; [|done]. injection Hstep as <-.
+    eexists _, []. unfold history_grows. rewrite loop_tail_evicted, loop_tail_handled.
+    split; [done|]. split; [done|]. intros s i Hs Hev. rewrite loop_tail_serves. cbn.
+    apply serves_iff in Hs as [h [Hc Hi]]. unfold cache in Hc; cbn [st_core] in Hc.
+    eapply serves_intro; [|exact Hi]. cbn [st_core k_cache].
+    apply map_filter_lookup_Some. split; [done|]. intros Hidle.
+    apply Hev, elem_of_keys. exists h. by apply map_filter_lookup_Some.
+  - injection Hstep as <-. apply history_grows_nil; [done|done|]. intros s i.
+    unfold serves, cache; cbn. by rewrite touch_peek.
+Qed.
+
+Lemma keeps_run c ls st st' :
+  run (step c) st ls = Some st' -> exists ev han, history_grows st st' ev han.
+Proof.
+  revert st. induction ls as [|l ls IH]; intros st Hrun; cbn in Hrun.
+  - injection Hrun as <-. by apply history_grows_nil.
+  - destruct (step c st l) as [st1|] eqn:E; [|done].
+    destruct (keeps_step c st l st1 E) as (ev1 & han1 & He1 & Hh1 & Hk1).
+    destruct (IH st1 Hrun) as (ev & han & He & Hh & Hk).
+    exists (ev ++ ev1), (han ++ han1). unfold history_grows. rewrite He, Hh, He1, Hh1, <- !app_assoc.
+    split; [done|]. split; [done|]. intros s i Hs Hn. rewrite latest_positive_app.
+    apply Hk; [apply Hk1; [done|]|]; intros Hin; apply Hn, elem_of_app; auto.
+Qed.
+
+(* the failed / empty answers for s: every handled info for s carries no instance *)
+Lemma latest_positive_failed s han i :
+  (forall i', (s, Some i') ∉ han) -> latest_positive s han i = i.
+Proof.
+  induction han as [|[s' [i'|]] han IH]; intros H; cbn; [done| |].
+  - case_decide as E; [subst; exfalso; eapply H; left|]. apply IH. intros i0 Hin. eapply H. right. exact Hin.
+  - apply IH. intros i0 Hin. eapply H. right. exact Hin.
+Qed.
+
+Lemma keeps_good_data c st ls st' :
+  run (step c) st ls = Some st' ->
+  exists ev han,
+    evicted st' = ev ++ evicted st /\ handled st' = han ++ handled st /\
+    forall s i, serves st s i -> s ∉ ev ->
+      serves st' s (latest_positive s han i) /\
+      ((forall i', (s, Some i') ∉ han) -> serves st' s i).
+Proof.
+  intros Hrun. destruct (keeps_run c ls st st' Hrun) as (ev & han & He & Hh & Hk).
+  exists ev, han. split; [done|]. split; [done|]. intros s i Hs Hn. split; [by apply Hk|].
+  intros Hf. rewrite <- (latest_positive_failed s han i Hf). by apply Hk.
+Qed.
+
+(* ---- C12_evict_idle, C12_requery_expired ----------------------------------------------------------- *)
+
+Lemma refresh_step c st t order st' :
+  step c st (Refresh t order) = Some st' ->
+  order ≡ₚ keys (filter (expired_entry c t) (cache st)) /\
+  cache st' = filter (λ kh, ¬ idle_entry c t kh) (cache st) /\
+  evicted st' = keys (filter (idle_entry c t) (cache st)) ++ evicted st /\
+  requeued st' = rev order ++ requeued st /\
+  waiting st' ≡ₚ order ++ waiting st.
+Proof.
+  destruct st as [k tl lr tr rr pe inf sub req bat han evi del pk]. cbn [step]. unfold do_refresh.
+  case_decide as Ho; [|done]. intros [= <-].
+  split; [exact Ho|]. rewrite loop_tail_waiting. rewrite !loop_tail_eq; cbn.
+  split; [done|]. split; [done|]. split; [done|].
+  unfold waiting; cbn. rewrite <- Permutation_rev. solve_Permutation.
+Qed.
+
+Lemma evict_idle c st t order st' :
+  step c st (Refresh t order) = Some st' ->
+  (forall s h, cache st' !! s = Some h <-> cache st !! s = Some h /\ ¬ (c_idle c < t - h_access h)) /\
+  exists ev, evicted st' = ev ++ evicted st /\ NoDup ev /\
+    forall s, s ∈ ev <-> exists h, cache st !! s = Some h /\ c_idle c < t - h_access h.
+Proof.
+  intros Hstep. destruct (refresh_step c st t order st' Hstep) as (_ & Hc & He & _ & _).
+  split.
+  - intros s h. rewrite Hc, map_filter_lookup_Some. done.
+  - eexists. split; [exact He|]. split; [apply NoDup_keys|].
+    intros s. rewrite elem_of_keys. unfold is_Some. setoid_rewrite map_filter_lookup_Some. done.
+Qed.
+
+Lemma requery_expired c st t order st' :
+  step c st (Refresh t order) = Some st' ->
+  requeued st' = rev order ++ requeued st /\
+  waiting st' ≡ₚ order ++ waiting st /\
+  NoDup order /\
+  forall s, s ∈ order <->
+    exists h, cache st !! s = Some h /\ ¬ (c_idle c < t - h_access h) /\ h_expires h < t.
+Proof.
+  intros Hstep. destruct (refresh_step c st t order st' Hstep) as (Ho & _ & _ & Hr & Hw).
+  split; [done|]. split; [done|]. split; [rewrite Ho; apply NoDup_keys|].
+  intros s. rewrite Ho, elem_of_keys. unfold is_Some. setoid_rewrite map_filter_lookup_Some. done.
+Qed.
+
+(* nothing but a refresh tick removes an entry *)
+Lemma evict_only_on_refresh c st l st' :
+  step c st l = Some st' -> (forall t order, l <> Refresh t order) ->
+  evicted st' = evicted st /\ forall s, is_Some (cache st !! s) -> is_Some (cache st' !! s).
+Proof.
+  destruct st as [k tl lr tr rr pe inf sub req bat han evi del pk]. intros Hstep Hl.
+  destruct l as [s0| |res err|now| |t order|s0 now]; cbn [step] in Hstep.
+  - destruct (can_receive c pe inf); [|done]. by injection Hstep as <-.
+  - destruct lr as [s1|]; [|done]. destruct (can_receive c pe inf); [|done]. injection Hstep as <-.
+    unfold cache. by rewrite loop_tail_evicted, loop_tail_core.
+  - destruct inf as [|i1 inf]; [|done]. destruct pe as [|p1 pe]; [done|]. by injection Hstep as <-.
+  - destruct inf as [|[ip io] inf]; [done|]. injection Hstep as <-.
+    unfold cache. rewrite loop_tail_evicted, loop_tail_core. split; [done|]. cbn [st_core]. intros s Hs.
+    rewrite handle_info_cache. apply lookup_insert_is_Some. destruct (decide (ip = s)); auto.
+  - destruct rr as [i1|]; [|done]. injection Hstep as <-.
+    unfold cache. by rewrite loop_tail_evicted, loop_tail_core.
+  - by destruct (Hl t order).
+  - injection Hstep as <-. split; [done|]. unfold cache; cbn. intros s Hs. unfold touch.
+    destruct (k_cache k !! s0) eqn:E; [|done]. apply lookup_insert_is_Some. destruct (decide (s0 = s)); auto.
+Qed.
+
+(* ---- non-vacuity: concrete histories on which the hypotheses of the theorems hold -------------------- *)
+
+Definition x_cfg := Config 10 5 30 2.   (* TTL 10, negative TTL 5, idle 30, batch limit 2 *)
+Definition x_a : source := [97%N].
+Definition x_b : source := [98%N].
+Definition x_i1 := Inst [105%N; 49%N] [[116%N]].
+Definition x_i2 := Inst [105%N; 50%N] [].
+(* a resolves to i1, b to nothing; both answers are delivered *)
+Definition x_fill : list label :=
+  [Submit x_a; Submit x_b; Batch [(x_a, Some x_i1)] false; HandleInfo 100; HandleInfo 100; Return; Return].
+(* tick at 111: both are past their TTL, none idle; the provider fails with an empty map *)
+Definition x_fail : list label :=
+  [Refresh 111 [x_a; x_b]; SendLookup; SendLookup; Batch [] true; HandleInfo 112; HandleInfo 112].
+(* tick at 123: both expired again (the failed refresh renewed them with the negative TTL); a now resolves to i2 *)
+Definition x_renew : list label :=
+  [Refresh 123 [x_b; x_a]; SendLookup; SendLookup; Batch [(x_a, Some x_i2); (x_b, None)] false;
+   HandleInfo 124; HandleInfo 124].
+
+Example ex_fill :
+  exists st, run (step x_cfg) init x_fill = Some st /\
+    serves st x_a x_i1 /\ peek_result (cache st) x_b = Some None /\
+    (gauge_pos st, gauge_neg st) = (1, 1) /\
+    delivered st = [(x_b, None); (x_a, Some x_i1)] /\ in_transit st = [] /\ waiting st = [] /\
+    queried st = [x_a; x_b] /\ due_answers st = [(x_a, Some x_i1); (x_b, None)].
+Proof. eexists; split; [vm_compute; reflexivity|]. vm_compute. repeat split; reflexivity. Qed.
+
+Example ex_keeps :
+  exists st1 st2,
+    run (step x_cfg) init x_fill = Some st1 /\ run (step x_cfg) st1 x_fail = Some st2 /\
+    serves st1 x_a x_i1 /\
+    handled st2 = [(x_a, None); (x_b, None)] ++ handled st1 /\ evicted st2 = [] ++ evicted st1 /\
+    serves st2 x_a x_i1 /\ (gauge_pos st2, gauge_neg st2, k_rneg (st_core st2)) = (1, 1, 2).
+Proof.
+  eexists _, _. split; [vm_compute; reflexivity|]. split; [vm_compute; reflexivity|].
+  vm_compute. repeat split; reflexivity.
+Qed.
+
+Example ex_replaces :
+  exists st1 st3,
+    run (step x_cfg) init x_fill = Some st1 /\ run (step x_cfg) st1 (x_fail ++ x_renew) = Some st3 /\
+    serves st1 x_a x_i1 /\ x_a ∉ firstn (length (evicted st3) - length (evicted st1)) (evicted st3) /\
+    serves st3 x_a x_i2 /\ (gauge_pos st3, gauge_neg st3, k_rpos (st_core st3), k_rneg (st_core st3)) = (1, 1, 1, 3).
+Proof.
+  eexists _, _. split; [vm_compute; reflexivity|]. split; [vm_compute; reflexivity|].
+  vm_compute. repeat split; try reflexivity. apply not_elem_of_nil.
+Qed.
+
+(* refresh ticks at the boundaries: idle for exactly the idle period is kept, one more is evicted; at
+   exactly the expiry time an entry is not queried again, one later it is *)
+Example ex_refresh_boundaries :
+  exists st1, run (step x_cfg) init (x_fill ++ [Peek x_b 120]) = Some st1 /\
+    (exists h, cache st1 !! x_a = Some h /\ h_access h = 100 /\ h_expires h = 110) /\
+    (exists st', step x_cfg st1 (Refresh 130 [x_a; x_b]) = Some st' /\
+       evicted st' = [] /\ requeued st' = [x_b; x_a] /\ serves st' x_a x_i1 /\ (gauge_pos st', gauge_neg st') = (1, 1)) /\
+    (exists st', step x_cfg st1 (Refresh 131 [x_b]) = Some st' /\
+       evicted st' = [x_a] /\ requeued st' = [x_b] /\ peek_result (cache st') x_a = None /\
+       peek_result (cache st') x_b = Some None /\ (gauge_pos st', gauge_neg st') = (0, 1)) /\
+    (exists st', step x_cfg st1 (Refresh 110 [x_b]) = Some st' /\ evicted st' = [] /\ requeued st' = [x_b]) /\
+    (exists st', step x_cfg st1 (Refresh 111 [x_b; x_a]) = Some st' /\ evicted st' = [] /\ requeued st' = [x_a; x_b]) /\
+    step x_cfg st1 (Refresh 111 [x_b]) = None.
+Proof.
+  eexists. split; [vm_compute; reflexivity|].
+  split; [eexists; split; [vm_compute; reflexivity|]; split; reflexivity|].
+  repeat (split; [eexists; split; [vm_compute; reflexivity|]; vm_compute; repeat split; reflexivity|]).
+  vm_compute; reflexivity.
+Qed.
+
+(* an evicted source that is looked up again starts from scratch: a failed answer is then served as a miss *)
+Example ex_evicted_forgets :
+  exists st, run (step x_cfg) init (x_fill ++ [Refresh 131 []; Submit x_a; Batch [] true; HandleInfo 132]) = Some st /\
+    evicted st = [x_a; x_b] /\ peek_result (cache st) x_a = Some None /\ peek_result (cache st) x_b = None /\
+    (gauge_pos st, gauge_neg st) = (0, 1).
+Proof. eexists; split; [vm_compute; reflexivity|]. vm_compute. repeat split; reflexivity. Qed.
+
+(* batches never exceed the limit: a third submission is refused until the batch of two has been looked up *)
+Example ex_batch_limit :
+  exists st, run (step x_cfg) init [Submit x_a; Submit x_b] = Some st /\ step x_cfg st (Submit x_a) = None /\
+    exists st', step x_cfg st (Batch [] false) = Some st' /\ inflight st' = [(x_a, None); (x_b, None)].
+Proof.
+  eexists; split; [vm_compute; reflexivity|]. split; [vm_compute; reflexivity|].
+  eexists; split; [vm_compute; reflexivity|]. vm_compute; reflexivity.
+Qed.
